@@ -305,9 +305,11 @@ def run(ck):
             if out_m is not None:
                 stats["model_compared"] += 1
                 mf = out_m[n].split("\t")
-                if (len(mf) != 3 or mf[0] != fields[1] or mf[1] != fields[2]) and len(disagreements) < 50:
-                    disagreements.append((origin, t, out_m[n], fields[1] + "\t" + fields[2]))
-                elif len(mf) == 3 and drop is not None and mf[2] != ",".join(str(j) for j in sorted(drop)):
+                if len(mf) != 3 or mf[0] != fields[1] or mf[1] != fields[2]:
+                    stats["disagreements"] = stats.get("disagreements", 0) + 1
+                    if len(disagreements) < 50:
+                        disagreements.append((origin, t, out_m[n], fields[1] + "\t" + fields[2]))
+                elif drop is not None and mf[2] != ",".join(str(j) for j in sorted(drop)) and len(class_mismatch) < 50:
                     # the python class predicate of F5 and Coq's `dropped` must be the same predicate
                     class_mismatch.append((origin, t, mf[2], sorted(drop)))
             if sample_every and n % sample_every == sample_every // 2:
@@ -392,7 +394,7 @@ def run(ck):
     ck.coverage["distinct_nontrivial"] = stats["nontrivial"]
     ck.coverage["tokens_checked"] = stats["tokens"]
     ck.coverage["model_vs_impl_compared"] = stats["model_compared"]
-    ck.coverage["model_vs_impl_disagreements"] = len(disagreements)
+    ck.coverage["model_vs_impl_disagreements"] = stats.get("disagreements", 0)
     ck.coverage["cases_in_known_class_F5"] = stats["f5_cases"]
     ck.coverage["F5_class_predicate_python_vs_coq_mismatches"] = len(class_mismatch)
 
@@ -415,7 +417,7 @@ def run(ck):
         ck.broken.append("correspondence Lexer.Model.{tokenize,preparse} vs parser::{tokenize,preparse}")
         ck.violation("model and implementation disagree (no clause of the property fails on the explored inputs)",
                      replay_obj(origin, t, {"correspondence": "Lexer.Model.{tokenize,preparse} vs parser::{tokenize,preparse}",
-                                            "model": m_, "implementation": i_, "disagreements": len(disagreements)}), no_input=True)
+                                            "model": m_, "implementation": i_, "disagreements": stats.get("disagreements", 0)}), no_input=True)
     if class_mismatch:
         origin, t, m_, p_ = class_mismatch[0]
         ck.broken.append("F5 class predicate: checks/C13.py dropped_set vs Coq PreLemmas.dropped")
